@@ -8,12 +8,17 @@ the two bytes `..` (segments are cut at each '/' found, the scan restarts right
 after it; or `split('/')` + `any(segment == "..")`, the closures decided by
 evaluating their MIR) -- and Ok only when none applies; index arithmetic discharged;
 (R4) the lookup table: the `.gz` sibling is tried iff auto_gzip and
-should_gzip(request headers); opened and not a directory -> node flagged gzip;
+should_gzip(request headers); opened and not a directory -> the node reports gzip;
 a directory or NotFound -> the plain path; any other error -> Err; the C strings
 passed are the validated bytes + `.gz` NUL resp. + NUL (so the unchecked CStr
-constructor's obligation holds); (R5) encoding() is Some("gzip") iff the node is
-flagged, add_encoding_headers sets Content-Encoding iff flagged and Vary iff
-auto_gzip, the flag is set only on R4's first row.
+constructor's obligation holds); (R5) what a node reports is read off its
+observers, evaluated on the very node value each lookup row constructs (for each
+value of the directory's setting the row allows): encoding() is Some("gzip") and
+add_encoding_headers sets Content-Encoding: gzip exactly on the row that opened
+the `.gz` sibling, Vary: accept-encoding exactly when the directory's automatic
+gzip is on - whatever fields carry it (two bools, small enums, one three-valued
+enum); nodes are constructed only in `get`; the builder's setting reaches the
+directory object.
 Does not decide: symlinks (documented non-goal), the filesystem itself."""
 from ..px import const, is_const, is_agg, agg_get, mk_binop, TY, fmt_term
 from .. import px as P
@@ -47,9 +52,9 @@ def roles(ctx):
         raise FailClosed("pub fn get on %s not found" % R["dir"])
     R["get"] = get[0]
     node = [a for a in ctx.facts.adts.values() if a["local"] and a["kind"] == "struct" and
-            any(f["ty"] == "std::fs::Metadata" for f in a["variants"][0]["fields"]) and sum(1 for f in a["variants"][0]["fields"] if boolish(ctx, f["ty"])) == 2]
+            any(f["ty"] == "std::fs::Metadata" for f in a["variants"][0]["fields"]) and any(f["ty"] == "std::fs::File" for f in a["variants"][0]["fields"])]
     if len(node) != 1:
-        raise FailClosed("node struct (file, metadata, two bools) not found uniquely")
+        raise FailClosed("node struct (an open file with its metadata) not found uniquely")
     R["node"] = node[0]["path"]
     # validator: crate-local fn (&str) -> Result<(), &str>
     val = [n for n, b in ctx.facts.bodies.items() if b["kind"] == "fn" and b["arg_count"] == 1 and b["locals"][1]["s"] == "&str"
@@ -444,7 +449,6 @@ def r4_lookup(ctx, R, opener):
         ctx.violation("C19.R4", "C19.R4|closure", "UNRECOGNISED blocking closure (closures handed to spawn_blocking: %s; two-valued captures: %s)" % (blocking, sorted(sg_caps)))
         return
     sg_cap = next(iter(sg_caps))
-    node_flags = [f["name"] for f in ctx.facts.adts[R["node"]]["variants"][0]["fields"] if boolish(ctx, f["ty"])]
     # crate-local helpers of the lookup (e.g. an extracted "try the .gz sibling" method) are expanded; the opener stays a call
     # captures that hold the same structured value (a buffer built before the hand-off, a saved length) on every path of the
     # caller are analysed with that value; everything else stays a symbolic capture
@@ -476,33 +480,11 @@ def r4_lookup(ctx, R, opener):
         ctx.info("C19.R4: blocking closure analysed with the caller's value for captures %s" % sorted(seeded))
     outs = ctx.px(blocking[0], inline=helper_inline(ctx, own=(R["dir"], R["node"]), never=(opener,)),
                   key=("helpers", tuple(sorted(seeded))), args=args)
-    # which of the node's two flags says "this is the .gz variant": the one that is not a copy of the directory's setting
-    gz_names = set()
-    const_vals = {}
-    for o in outs:
-        if o.kind == "return" and is_agg(o.value) and o.value[3] == "Ok" and is_agg(agg_get(o.value, "0")):
-            nd = agg_get(o.value, "0")
-            for fname in node_flags:
-                if is_const(agg_get(nd, fname)):
-                    gz_names.add(fname)
-                    const_vals.setdefault(fname, set()).add(agg_get(nd, fname)[1])
-    if len(gz_names) > 1:
-        # several constant flags (e.g. the directory's setting mapped through a small enum): the gzip flag is the one that
-        # takes both values across the lookup rows of one and the same directory setting
-        both = {f for f in gz_names if len(const_vals.get(f, ())) == 2}
-        auto_known = {}
-        for o in outs:
-            if o.kind == "return" and is_agg(o.value) and o.value[3] == "Ok" and is_agg(agg_get(o.value, "0")):
-                nd = agg_get(o.value, "0")
-                av = tuple(sorted((fmt_term(k)[:80], v) for k, v in o.cons.known.items() if R["auto_f"] in fmt_term(k)[:200]))
-                for f in both:
-                    auto_known.setdefault(f, {}).setdefault(av, set()).add(agg_get(nd, f)[1])
-        gz_names = {f for f in both if any(len(vs) == 2 for vs in auto_known.get(f, {}).values())} or both
-    if len(gz_names) != 1:
-        ctx.violation("C19.R4", "C19.R4|node-flags", "UNRECOGNISED: the node's gzip flag (a constant per lookup row) is not found uniquely among %s" % node_flags)
+    # what a node *reports* is read off its observers (encoding(), add_encoding_headers()) applied to the very node value
+    # each lookup row constructs - whatever fields (two bools, small enums, one three-valued enum ..) carry it
+    OBS = Observers(ctx, R)
+    if not OBS.ok:
         return
-    R["gz_f"] = next(iter(gz_names))
-    R["node_auto_f"] = [f for f in node_flags if f != R["gz_f"]][0]
     nrows = 0
     gzflag_rows = 0
     for o in outs:
@@ -546,8 +528,33 @@ def r4_lookup(ctx, R, opener):
                 sgv = val
         is_ok = is_agg(v) and v[3] == "Ok"
         node = agg_get(v, "0") if is_ok else None
-        gz = agg_get(node, R["gz_f"]) if is_agg(node) else None
         bad = []
+        gz = None
+        if is_ok:
+            # (the lookup switch is `auto_gzip && should_gzip(..)`, established above: a row taken with the switch on has the
+            # directory's setting on)
+            obs = OBS.of(node, o, only=([1] if (sgv == 1 and cap_ok) else None)) if is_agg(node) else None
+            if obs == {}:
+                nrows -= 1
+                continue        # the row needs the lookup switch on with the directory's setting off: infeasible
+            if not obs:
+                bad.append("UNRECOGNISED: what the constructed node reports cannot be evaluated (%s)" % short(node, 60))
+            else:
+                gzs = {r_["gzip"] for r_ in obs.values()}
+                gz = const(int(next(iter(gzs)))) if len(gzs) == 1 else None
+                bad5 = []
+                for a_, r_ in sorted(obs.items()):
+                    if r_["gzip"] != r_["ce"]:
+                        bad5.append("encoding() says %s but add_encoding_headers %s Content-Encoding" % ("gzip" if r_["gzip"] else "identity", "sets" if r_["ce"] else "does not set"))
+                    if r_["vary"] != bool(a_):
+                        bad5.append("Vary is %s although the directory's automatic gzip is %s" % ("set" if r_["vary"] else "absent", "on" if a_ else "off"))
+                    if r_["vary"] and (r_["vary_text"] or "").lower() != "accept-encoding":
+                        bad5.append("Vary value is %r" % r_["vary_text"])
+                    if r_["ce"] and (r_["ce_text"] or "").lower() != "gzip":
+                        bad5.append("Content-Encoding value is %r" % r_["ce_text"])
+                OBS.rows += len(obs)
+                if bad5:
+                    ctx.violation("C19.R5", "C19.R5|headers|%s" % bad5[0][:40], "the node a lookup row constructs (should_gzip=%s): %s" % (sgv, "; ".join(sorted(set(bad5)))), where=_w(o))
         for lit, base, tail in tails:
             if lit not in ("\0", ".gz\0"):
                 bad.append("a C string is built from the captured path + %r (expected the path followed by NUL or by `.gz` NUL)" % lit)
@@ -568,12 +575,12 @@ def r4_lookup(ctx, R, opener):
         if is_ok and gz == const(0):
             if not tails or tails[-1][0] != "\0":
                 bad.append("the plain node was not opened as <path> NUL (last C string suffix %r)" % (tails[-1][0] if tails else None))
-        if is_ok and gz not in (const(0), const(1)):
-            bad.append("UNRECOGNISED gzip flag %s" % short(gz, 30))
+        if is_ok and gz not in (const(0), const(1)) and not bad:
+            bad.append("whether the node reports gzip depends on more than the lookup row")
         if bad:
             ctx.violation("C19.R4", "C19.R4|row|%s" % bad[0][:50], "lookup row (should_gzip=%s): %s" % (sgv, "; ".join(bad)), where=_w(o))
         else:
-            ctx.ok("C19.R4", "lookup row (should_gzip=%s): %s" % (sgv, ("Ok gz=%s" % gz[1]) if is_ok else "Err"))
+            ctx.ok("C19.R4", "lookup row (should_gzip=%s): %s" % (sgv, ("Ok, node reports %s; Vary iff automatic gzip" % ("gzip" if gz[1] else "identity")) if is_ok else "Err"))
     # NotFound / directory fall through to the plain path; other errors are returned
     fall = 0
     for o in outs:
@@ -592,6 +599,7 @@ def r4_lookup(ctx, R, opener):
     ctx.floor("C19.R4", nrows, 8, what="rows of the blocking lookup closure")
     ctx.floor("C19.R4.gz", gzflag_rows, 1, what="rows producing a gzip-flagged node")
     ctx.floor("C19.R4.fallback", fall, 2, what="rows that fall back from .gz to the plain path")
+    ctx.floor("C19.R5", OBS.rows, 4, what="(lookup row, directory setting) pairs on which encoding() / add_encoding_headers() were evaluated")
     # is_gzipped: true is constructed only there
     sites = aggregates(ctx.facts, R["node"])
     for b, i, st in sites:
@@ -599,49 +607,95 @@ def r4_lookup(ctx, R, opener):
             ctx.violation("C19.R5", "C19.R5|node-site", "a node is constructed outside get: %s" % b["name"])
 
 
-def r5_headers(ctx, R):
-    enc = inherent_fn(ctx, R["node"], "encoding")
-    aeh = inherent_fn(ctx, R["node"], "add_encoding_headers")
-    if len(enc) != 1 or len(aeh) != 1:
-        ctx.violation("C19.R5", "C19.R5|fns", "UNRECOGNISED: encoding / add_encoding_headers not found")
-        return
-    S = ("deref", ("param", 1))
-    gzf = ("field", S, R.get("gz_f", "is_gzipped"))
-    autof = ("field", S, R.get("node_auto_f", "auto_gzip"))
-    # field names by role: the node's two bools; which is which comes from the constructor rows (R4): is_gzipped is the one set to 1 on the .gz row
-    for o in ctx.px(enc[0], inline=helper_inline(ctx, own=(R["node"],)), key="helpers"):
-        if o.kind != "return":
-            continue
-        g = o.cons.known.get(gzf)
-        v = o.value
-        some_gzip = is_agg(v) and v[3] == "Some" and "gzip" in repr(agg_get(v, "0"))
-        none = is_agg(v) and v[3] == "None"
-        if g is None or (g == 1) != some_gzip or (g == 0) != none:
-            ctx.violation("C19.R5", "C19.R5|encoding", "encoding() is %s when the gzip flag is %s" % (short(v, 40), g))
-        else:
-            ctx.ok("C19.R5", "encoding(): flag %s -> %s" % (g, "Some(\"gzip\")" if some_gzip else "None"))
-    n = 0
-    for o in ctx.px(aeh[0], inline=lambda c, d: True, key="all"):
-        if o.kind != "return":
-            continue
-        n += 1
-        g = o.cons.known.get(gzf)
-        a = o.cons.known.get(autof)
-        ins = [e for e in o.events if e["k"] == "call" and e["callee"].get("path", "").endswith("HeaderMap::<T>::insert")]
-        names = [SM.hdr_name(e["args"][1]) for e in ins]
-        vals = {SM.hdr_name(e["args"][1]): SM.fmt_value(e["args"][2]) for e in ins}
-        bad = []
-        if ("CONTENT_ENCODING" in names) != (g == 1):
-            bad.append("Content-Encoding is %s although the gzip flag is %s" % ("set" if "CONTENT_ENCODING" in names else "absent", g))
-        if ("VARY" in names) != (a == 1):
-            bad.append("Vary is %s although auto_gzip is %s" % ("set" if "VARY" in names else "absent", a))
-        if "VARY" in vals and (vals["VARY"].get("text") or "").lower() != "accept-encoding":
-            bad.append("Vary value is %r" % vals["VARY"].get("text"))
-        if bad:
-            ctx.violation("C19.R5", "C19.R5|headers|%s" % bad[0][:40], "add_encoding_headers: " + "; ".join(bad))
-        else:
-            ctx.ok("C19.R5", "add_encoding_headers: gzip flag %s, auto_gzip %s -> %s" % (g, a, names))
-    ctx.floor("C19.R5", n, 4, what="rows of add_encoding_headers")
+class Observers:
+    """encoding() / add_encoding_headers() evaluated on a concrete node value (C19.R5): representation-independent"""
+
+    def __init__(self, ctx, R):
+        self.ctx, self.R = ctx, R
+        self.rows = 0
+        self.cache = {}
+        enc = inherent_fn(ctx, R["node"], "encoding")
+        aeh = inherent_fn(ctx, R["node"], "add_encoding_headers")
+        self.ok = len(enc) == 1 and len(aeh) == 1
+        if not self.ok:
+            ctx.violation("C19.R5", "C19.R5|fns", "UNRECOGNISED: encoding / add_encoding_headers not found")
+            return
+        self.enc, self.aeh = enc[0], aeh[0]
+
+    def _subst(self, t, a):
+        """the directory's own setting, wherever the node copied it from, replaced by the constant a"""
+        if not isinstance(t, tuple) or not t:
+            return t
+        if t[0] == "field" and len(t) == 3 and t[2] == self.R["auto_f"]:
+            return const(a)
+        return tuple(self._subst(x, a) if isinstance(x, tuple) else x for x in t)
+
+    def _has_auto(self, t):
+        if not isinstance(t, tuple) or not t:
+            return False
+        if t[0] == "field" and len(t) == 3 and t[2] == self.R["auto_f"]:
+            return True
+        return any(self._has_auto(x) for x in t if isinstance(x, tuple))
+
+    def of(self, node, o, only=None):
+        """{a: report} for every value a of the directory's automatic-gzip setting that row o allows"""
+        known = {v for t_, v in o.cons.known.items() if isinstance(t_, tuple) and t_[0] == "field" and len(t_) == 3 and t_[2] == self.R["auto_f"]}
+        feas = sorted(known) if known else [0, 1]
+        if only is not None:
+            feas = [a for a in feas if a in only]
+        out = {}
+        for a in feas:
+            nv = self._subst(node, a)
+            # opaque parts that do not matter to the observers (the file, its metadata) stay symbolic
+            key = repr(tuple((n_, v_) for n_, v_ in nv[4] if n_ not in self._opaque_fields()))
+            if key not in self.cache:
+                self.cache[key] = self._eval(nv, len(self.cache))
+            if self.cache[key] is None:
+                return None
+            out[a] = self.cache[key]
+        return out
+
+    def _opaque_fields(self):
+        return {f["name"] for f in self.ctx.facts.adts[self.R["node"]]["variants"][0]["fields"] if f["ty"] in ("std::fs::File", "std::fs::Metadata")}
+
+    def _eval(self, nv, idx):
+        ctx, R = self.ctx, self.R
+        rep = {}
+        outs = [o for o in ctx.px(self.enc, inline=helper_inline(ctx, own=(R["node"],)), key=("obs-enc", idx), args=[("refconst", nv)]) if o.kind == "return"]
+        vals = set()
+        for o in outs:
+            v = o.value
+            if is_agg(v) and v[3] == "Some" and "gzip" in repr(agg_get(v, "0")):
+                vals.add(True)
+            elif is_agg(v) and v[3] == "None":
+                vals.add(False)
+            else:
+                vals.add(None)
+        if len(vals) != 1 or None in vals:
+            ctx.violation("C19.R5", "C19.R5|encoding", "encoding() does not give one definite answer (Some(\"gzip\") / None) for a node value that `get` constructs: %s" % sorted(map(str, vals)))
+            return None
+        rep["gzip"] = next(iter(vals))
+        outs = [o for o in ctx.px(self.aeh, inline=lambda c, d: True, key=("obs-aeh", idx), args=[("refconst", nv), ("param", 2)]) if o.kind == "return"]
+        seen = set()
+        for o in outs:
+            ins = [e for e in o.events if e["k"] == "call" and e["callee"].get("path", "").endswith("HeaderMap::<T>::insert")]
+            vals_ = {SM.hdr_name(e["args"][1]): SM.fmt_value(e["args"][2]) for e in ins}
+            extra = sorted(set(vals_) - {"CONTENT_ENCODING", "VARY"})
+            if extra:
+                ctx.violation("C19.R5", "C19.R5|other-header", "add_encoding_headers sets %s" % extra)
+                return None
+            raw = {SM.hdr_name(e["args"][1]): e["args"][2] for e in ins}
+            cetxt = (vals_.get("CONTENT_ENCODING") or {}).get("text")
+            if cetxt is None and "CONTENT_ENCODING" in raw and "'gzip'" in repr(raw["CONTENT_ENCODING"]):
+                cetxt = "gzip"        # from_static(e) with e the text encoding() returned on this path
+            seen.add(("CONTENT_ENCODING" in vals_, "VARY" in vals_, (vals_.get("VARY") or {}).get("text"), cetxt))
+        if len(seen) != 1:
+            ctx.violation("C19.R5", "C19.R5|headers", "add_encoding_headers does not behave as one function of the node value `get` constructs (%d behaviours)" % len(seen))
+            return None
+        ce, vary, vtxt, cetxt = next(iter(seen))
+        rep.update({"ce": ce, "vary": vary, "vary_text": vtxt, "ce_text": cetxt})
+        ctx.ok("C19.R5", "observers on a constructed node: encoding()=%s, Content-Encoding %s, Vary %s" % ("gzip" if rep["gzip"] else "None", "set" if ce else "absent", "set" if vary else "absent"))
+        return rep
 
 
 def r5_config_plumbing(ctx, R):
@@ -701,5 +755,4 @@ def run(ctx):
     opener = r1_r2(ctx, R)
     if opener:
         r4_lookup(ctx, R, opener)
-    r5_headers(ctx, R)
     r5_config_plumbing(ctx, R)
